@@ -108,16 +108,25 @@ def nontrivial(case):
 PROFILES_QUICK = [("closure", 1, ["A", "E"]), ("core", 6, ["E"]), ("lambda", 5, ["E"]), ("lambda", 4, ["A", "C"]), ("constr", 4, ["C", "E"]),
                   ("poly", 4, ["E"]), ("arith", 3, ["A", "E"]), ("bytes", 3, ["A", "B", "C", "D", "E"]),
                   ("data", 3, ["E"]), ("bits", 3, ["D", "E"])]
-PROFILES_THOROUGH = [("closure", 1, SEMS), ("core", 7, ["C", "E"]), ("lambda", 6, ["E"]), ("lambda", 5, SEMS), ("constr", 5, ["C", "E"]), ("poly", 5, ["A", "E"]),
+PROFILES_THOROUGH = [("closure", 1, SEMS), ("core", 6, SEMS), ("lambda", 6, ["E"]), ("lambda", 5, SEMS), ("constr", 5, ["C", "E"]), ("poly", 5, ["A", "E"]),
                      ("arith", 4, SEMS), ("bytes", 4, SEMS), ("data", 4, ["A", "E"]), ("bits", 4, ["D", "E"])]
 
 
-def replay_mc(profiles, rep, prop, check_cost=False, openvars=0, workers=6):
+def replay_mc(profiles, rep, prop, check_cost=False, openvars=0, workers=6, timeout=1500):
     """Run MC_Cek per profile, replay every finished behaviour on the real machine, compare."""
-    tot = dict(states=0, transitions=0, cases=0, unknown=0, nontrivial=set(), samples=[], mism=0)
+    tot = dict(states=0, transitions=0, cases=0, unknown=0, nontrivial=set(), samples=[], mism=0, reduced=[])
     for (profile, n, sems) in profiles:
         t0 = time.time()
-        cases, r = mc_cek(profile, n, sems, openvars=openvars, workers=workers)
+        try:
+            cases, r = mc_cek(profile, n, sems, openvars=openvars, workers=workers, timeout=timeout)
+        except vlib.ToolError as ex:
+            # a bound that does not finish in time on a loaded machine is explored one size smaller (and said so in the evidence), not reported
+            if "timed out" not in str(ex) or n <= 2:
+                raise
+            log("[mc] %s N=%d did not finish within %ds: explored at N=%d instead" % (profile, n, timeout, n - 1))
+            tot["reduced"].append({"profile": profile, "N_planned": n, "N_explored": n - 1, "reason": "TLC did not finish within %d s" % timeout})
+            n -= 1
+            cases, r = mc_cek(profile, n, sems, openvars=openvars, workers=workers, timeout=timeout)
         tot["states"] += r.distinct
         tot["transitions"] += r.generated
         obs = eval_real([{"term": c["term"], "var": c["sem"]} for c in cases])
@@ -217,7 +226,7 @@ def c03(tier):
     comparator_canary("C03")
     anc = anchor_spec()
     profiles = PROFILES_QUICK if tier == "quick" else PROFILES_THOROUGH
-    tot = replay_mc(profiles, rep, "C03")
+    tot = replay_mc(profiles, rep, "C03", workers=6 if tier == "quick" else 12, timeout=1500 if tier == "quick" else 3000)
     nrand = 3000 if tier == "quick" else 40000
     events = observe_random(vlib.seed(), nrand, ["A", "C", "E"], (6, 60), "outcome")
     res = validate_events(events, "c03rand", rep, "random term (seed %d)" % vlib.seed())
@@ -232,7 +241,7 @@ def c03(tier):
                 "TLC); random type-directed closed terms validated by Obs_Uplc. non-trivial: run of >= 3 machine "
                 "steps (enumerated) / term of >= 12 nodes (random); distinct by canonical hash",
         "exhaustive": True, "spec_unknown_skipped": tot["unknown"] + len(res["skipped"]),
-        "anchor_goldens_agreeing_with_spec": anc["ok"], "profiles": [list(p) for p in profiles],
+        "anchor_goldens_agreeing_with_spec": anc["ok"], "profiles": [list(p) for p in profiles], "bounds_reduced_for_time": tot["reduced"],
         "random_events": len(events), "random_events_accepted": res["ok"],
     }
     rc = rep.finish()
